@@ -7,9 +7,10 @@
 (* API) and every transition ("T" lines, with the admissible outcomes) for  *)
 (* replay against the real library.                                         *)
 (***************************************************************************)
-EXTENDS Tree, Json
+EXTENDS Tree, Json, SequencesExt
 
 CONSTANTS KeySeq,        \* sequence enumerating Keys
+          QKeySeq,       \* names used in lookups (by-key queries, detach/delete/replace by key): a superset of Keys
           StrSeq,        \* sequence enumerating Strs
           LeafKinds,     \* kinds CreateLeaf may create
           Features,      \* subset of {"ref","cs","fail","bulk","dup","replace","sethelpers","addnew","null","sort"}
@@ -36,7 +37,7 @@ JOut(o) == <<J(o.h, o.roots), o.res>>
 Q(hh) == [p \in Node |->
             IF hh[p].k \in {"arr", "obj"}
             THEN <<Len(Kids(hh, p)), Kids(hh, p),
-                   [j \in DOMAIN KeySeq |-> <<KeySeq[j], ObjectItem(hh, p, KeySeq[j], TRUE), ObjectItem(hh, p, KeySeq[j], FALSE)>>]>>
+                   [j \in (IF hh[p].k = "obj" THEN DOMAIN QKeySeq ELSE {}) |-> <<QKeySeq[j], ObjectItem(hh, p, QKeySeq[j], TRUE), ObjectItem(hh, p, QKeySeq[j], FALSE)>>]>>
             ELSE <<>>]
 
 EmitT(act, outs) == Emit => PrintT(ToJson(<<"T", act, J(h, roots), [j \in DOMAIN outs |-> JOut(outs[j])]>>))
@@ -56,8 +57,8 @@ Frame(h1, h2, P, A, Gone, New) ==
 
 Unchanged(h1, r1, o) == o.h = h1 /\ o.roots = r1
 
-RemoveAt(s, k) == SubSeq(s, 1, k - 1) \o SubSeq(s, k + 1, Len(s))
-InsertAt(s, k, e) == SubSeq(s, 1, k - 1) \o <<e>> \o SubSeq(s, k, Len(s))
+LmRemoveAt(s, k) == SubSeq(s, 1, k - 1) \o SubSeq(s, k + 1, Len(s))
+LmInsertAt(s, k, e) == SubSeq(s, 1, k - 1) \o <<e>> \o SubSeq(s, k, Len(s))
 IndexIn(s, e) == CHOOSE k \in DOMAIN s : s[k] = e
 
 FirstKey(hh, p, name, cs) ==    \* list-model lookup, written independently of ObjectItem
@@ -84,29 +85,29 @@ L1(act, o) ==
     [] a = "DetachItemViaPointer" ->
          LET p == act[2] i == act[3] IN
          IF p = NULL \/ i = NULL \/ i \notin Range(Kids(h, p)) THEN Unchanged(h, roots, o) /\ o.res = NULLRES
-         ELSE /\ o.res = Ptr(i) /\ Kids(h2, p) = RemoveAt(Kids(h, p), IndexIn(Kids(h, p), i))
+         ELSE /\ o.res = Ptr(i) /\ Kids(h2, p) = LmRemoveAt(Kids(h, p), IndexIn(Kids(h, p), i))
               /\ Frame(h, h2, {p}, {}, {}, {}) /\ o.roots = roots \cup {i}
     [] a = "DetachItemFromArray" ->
          LET p == act[2] idx == act[3] c == IF p = NULL THEN <<>> ELSE Kids(h, p) IN
          IF idx < 0 \/ idx >= Len(c) THEN Unchanged(h, roots, o) /\ o.res = NULLRES
-         ELSE /\ o.res = Ptr(c[idx + 1]) /\ Kids(h2, p) = RemoveAt(c, idx + 1)
+         ELSE /\ o.res = Ptr(c[idx + 1]) /\ Kids(h2, p) = LmRemoveAt(c, idx + 1)
               /\ Frame(h, h2, {p}, {}, {}, {}) /\ o.roots = roots \cup {c[idx + 1]}
     [] a \in {"DetachItemFromObject", "DetachItemFromObjectCaseSensitive"} ->
          LET p == act[2] name == act[3]
              m == IF p = NULL \/ name = NoStr THEN NULL ELSE FirstKey(h, p, name, a = "DetachItemFromObjectCaseSensitive") IN
          IF m = NULL THEN Unchanged(h, roots, o) /\ o.res = NULLRES
-         ELSE /\ o.res = Ptr(m) /\ Kids(h2, p) = RemoveAt(Kids(h, p), IndexIn(Kids(h, p), m))
+         ELSE /\ o.res = Ptr(m) /\ Kids(h2, p) = LmRemoveAt(Kids(h, p), IndexIn(Kids(h, p), m))
               /\ Frame(h, h2, {p}, {}, {}, {}) /\ o.roots = roots \cup {m}
     [] a = "DeleteItemFromArray" ->
          LET p == act[2] idx == act[3] c == IF p = NULL THEN <<>> ELSE Kids(h, p) IN
          IF idx < 0 \/ idx >= Len(c) THEN Unchanged(h, roots, o)
-         ELSE /\ Kids(h2, p) = RemoveAt(c, idx + 1)
+         ELSE /\ Kids(h2, p) = LmRemoveAt(c, idx + 1)
               /\ Frame(h, h2, {p}, {}, Subtree(h, c[idx + 1]), {}) /\ o.roots = roots
     [] a \in {"DeleteItemFromObject", "DeleteItemFromObjectCaseSensitive"} ->
          LET p == act[2] name == act[3]
              m == IF p = NULL \/ name = NoStr THEN NULL ELSE FirstKey(h, p, name, a = "DeleteItemFromObjectCaseSensitive") IN
          IF m = NULL THEN Unchanged(h, roots, o)
-         ELSE /\ Kids(h2, p) = RemoveAt(Kids(h, p), IndexIn(Kids(h, p), m))
+         ELSE /\ Kids(h2, p) = LmRemoveAt(Kids(h, p), IndexIn(Kids(h, p), m))
               /\ Frame(h, h2, {p}, {}, Subtree(h, m), {}) /\ o.roots = roots
     [] a = "Delete" ->
          LET i == act[2] IN
@@ -116,7 +117,7 @@ L1(act, o) ==
          LET p == act[2] idx == act[3] i == act[4] c == IF p = NULL THEN <<>> ELSE Kids(h, p) IN
          IF idx < 0 \/ i = NULL \/ p = NULL \/ (p = i /\ idx >= Len(c)) THEN Unchanged(h, roots, o) /\ o.res = Flag(FALSE)
          ELSE /\ o.res = Flag(TRUE)
-              /\ Kids(h2, p) = IF idx >= Len(c) THEN Append(c, i) ELSE InsertAt(c, idx + 1, i)
+              /\ Kids(h2, p) = IF idx >= Len(c) THEN Append(c, i) ELSE LmInsertAt(c, idx + 1, i)
               /\ Frame(h, h2, {p}, {}, {}, {}) /\ o.roots = roots \ {i}
     [] a \in {"ReplaceItemViaPointer", "ReplaceItemInArray"} ->
          LET p == act[2] r == act[4]
@@ -139,6 +140,13 @@ L1(act, o) ==
                       /\ Kids(h2, p) = [Kids(h, p) EXCEPT ![IndexIn(Kids(h, p), m)] = r]
                       /\ h2[r].key = name /\ h2[r].ck = FALSE
                       /\ Frame(h, h2, {p}, {r}, Subtree(h, m), {}) /\ o.roots = roots \ {r}
+    [] a = "SortObject" ->
+         LET p == act[2] cs == act[3] IN
+         IF p = NULL THEN Unchanged(h, roots, o)
+         ELSE /\ \E t \in Perms(Kids(h, p)) : Kids(h2, p) = t            \* same member nodes
+              /\ SortedBy(h2, Kids(h2, p), cs)                            \* keys non-decreasing
+              /\ Frame(h, h2, {p}, {}, {}, {}) /\ o.roots = roots         \* values and subtrees untouched
+              /\ SortObject(h2, o.roots, p, cs)[1].h = h2                 \* idempotent
     [] OTHER -> TRUE
 
 (***************************************************************************)
@@ -163,6 +171,8 @@ CanHold(p, i) == p \notin Subtree(h, i)                              \* no cycle
 MaybeNull(S) == IF F("null") THEN S \cup {NULL} ELSE S
 Fails(n) == IF F("fail") THEN 0..(IF n < MaxFail THEN n ELSE MaxFail) ELSE {0}
 KeyArgs == IF F("null") THEN Keys \cup {NoStr} ELSE Keys
+QKeys == Range(QKeySeq)
+QKeyArgs == IF F("null") THEN QKeys \cup {NoStr} ELSE QKeys
 
 Take(act, outs) ==
   /\ h' = outs[1].h /\ roots' = outs[1].roots /\ res' = outs[1].res
@@ -197,7 +207,7 @@ Add ==
         /\ (p # NULL /\ i # NULL /\ p # i) => CanHold(p, i)
         /\ Take(<<"AddItemToArray", p, i>>, AddItemToArray(h, roots, p, i))
   \/ \E p \in MaybeNull(Objs), key \in KeyArgs, i \in MaybeNull(Loose), f \in Fails(1) :
-        /\ F("obj")
+        /\ (F("obj") \/ F("objadd"))
         /\ (p # NULL /\ i # NULL /\ p # i) => CanHold(p, i)
         /\ TakeF(<<"AddItemToObject", p, key, i, f>>, f, AddItemToObject(h, roots, p, key, i, FALSE, f),
                  AddItemToObject(h, roots, p, key, i, FALSE, 0))
@@ -232,7 +242,7 @@ Detach ==
         /\ F("arr")
         /\ p # NULL => idx <= Len(Kids(h, p))
         /\ Take(<<"DetachItemFromArray", p, idx>>, DetachItemFromArray(h, roots, p, idx))
-  \/ \E p \in MaybeNull(Objs), name \in KeyArgs, cs \in BOOLEAN :
+  \/ \E p \in MaybeNull(Objs), name \in QKeyArgs, cs \in BOOLEAN :
         F("obj") /\
         Take(<<IF cs THEN "DetachItemFromObjectCaseSensitive" ELSE "DetachItemFromObject", p, name>>,
              DetachItemFromObject(h, roots, p, name, cs))
@@ -244,7 +254,7 @@ Del ==
         /\ idx <= Len(Kids(h, p))
         /\ (idx >= 0 /\ idx < Len(Kids(h, p))) => Releasable(h, Kids(h, p)[idx + 1])
         /\ Take(<<"DeleteItemFromArray", p, idx>>, DeleteAfterDetach(DetachItemFromArray(h, roots, p, idx)))
-  \/ \E p \in Objs, name \in Keys, cs \in BOOLEAN :
+  \/ \E p \in Objs, name \in QKeys, cs \in BOOLEAN :
         /\ F("obj")
         /\ LET m == ObjectItem(h, p, name, cs) IN m # NULL => Releasable(h, m)
         /\ Take(<<IF cs THEN "DeleteItemFromObjectCaseSensitive" ELSE "DeleteItemFromObject", p, name>>,
@@ -264,6 +274,7 @@ Replace ==
           /\ (p # NULL /\ item # NULL) => (item \in Range(Kids(h, p)) /\ Releasable(h, item))
           /\ (p # NULL /\ r # NULL) => CanHold(p, r)
           /\ r # NULL => r # item
+          /\ (p # NULL /\ r # NULL /\ h[p].k = "obj") => h[r].key # NoStr      \* members of objects have keys
           /\ Take(<<"ReplaceItemViaPointer", p, item, r>>, ReplaceItemViaPointer(h, roots, p, item, r))
      \/ \E p \in MaybeNull(Arrs), idx \in -1..N, r \in MaybeNull(Loose) :
           /\ F("arr")
@@ -271,7 +282,7 @@ Replace ==
           /\ (p # NULL /\ idx >= 0 /\ idx < Len(Kids(h, p))) => Releasable(h, Kids(h, p)[idx + 1])
           /\ (p # NULL /\ r # NULL) => CanHold(p, r)
           /\ Take(<<"ReplaceItemInArray", p, idx, r>>, ReplaceItemInArray(h, roots, p, idx, r))
-     \/ \E p \in MaybeNull(Objs), name \in KeyArgs, r \in MaybeNull(Loose), cs \in BOOLEAN, f \in Fails(1) :
+     \/ \E p \in MaybeNull(Objs), name \in QKeyArgs, r \in MaybeNull(Loose), cs \in BOOLEAN, f \in Fails(1) :
           /\ F("obj")
           /\ (p # NULL /\ name # NoStr) => LET m == ObjectItem(h, p, name, cs) IN m # NULL => Releasable(h, m)
           /\ (p # NULL /\ r # NULL) => CanHold(p, r)
@@ -300,12 +311,54 @@ Bulk ==
 Dup ==
   /\ F("dup")
   /\ \E item \in MaybeNull(Live(h)), rec \in BOOLEAN :
-       LET full == IF item = NULL THEN [oom |-> FALSE, n |-> 0] ELSE DupReqs(h, item, rec) IN
-       /\ ~full.oom
-       /\ \E f \in Fails(full.n) :
-            TakeF(<<"Duplicate", item, rec, f>>, f, Duplicate(h, roots, item, rec, f), Duplicate(h, roots, item, rec, 0))
+       \E f \in Fails(IF item = NULL THEN 0 ELSE DupCount(h, item, 0, rec, N)) :
+          /\ ~DupOom(h, item, rec, f)
+          /\ LET o == Duplicate(h, roots, item, rec, f) IN
+             TakeF(<<"Duplicate", item, rec, f>>, f, o, IF DupOom(h, item, rec, 0) THEN o ELSE Duplicate(h, roots, item, rec, 0))
 
-Next == Create \/ Add \/ Detach \/ Del \/ Insert \/ Replace \/ SetHelpers \/ Bulk \/ Dup
+\* key argument aliases the moved item's own key (C07): cJSON_AddItemToObject(p, item->string, item)
+Alias ==
+  /\ F("alias")
+  /\ \/ \E p \in Objs, i \in {j \in Loose : h[j].key # NoStr}, f \in Fails(1) :
+          /\ p # i /\ CanHold(p, i)
+          /\ TakeF(<<"AddItemToObjectAlias", p, i, f>>, f, AddItemToObject(h, roots, p, h[i].key, i, FALSE, f),
+                   AddItemToObject(h, roots, p, h[i].key, i, FALSE, 0))
+     \/ \E p \in Objs, r \in {j \in Loose : h[j].key # NoStr}, cs \in BOOLEAN, f \in Fails(1) :
+          /\ F("replace") /\ CanHold(p, r)
+          /\ LET m == ObjectItem(h, p, h[r].key, cs) IN m # NULL => Releasable(h, m)
+          /\ TakeF(<<"ReplaceItemInObjectAlias", p, r, cs, f>>, f, ReplaceItemInObject(h, roots, p, h[r].key, r, cs, f),
+                   ReplaceItemInObject(h, roots, p, h[r].key, r, cs, 0))
+
+\* cJSONUtils_SortObject[CaseSensitive]; besides the code's own order every order the property admits
+\* (a sorted permutation; the order among equal keys is open) is an acceptable outcome
+Sort ==
+  /\ F("sort")
+  /\ \E p \in Objs, cs \in BOOLEAN :
+        LET l2   == SortObject(h, roots, p, cs)
+            alts == {t \in Perms(Kids(h, p)) : SortedBy(h, t, cs) /\ t # Kids(l2[1].h, p)}
+            pick == SetToSeq(alts)
+            altseq == [j \in DOMAIN pick |-> Out(Relink(h, p, pick[j]), roots, [t |-> "void"])]
+        IN Take(<<"SortObject", p, cs>>, l2 \o altseq)
+
+\* environment: the caller builds a cyclic structure by hand (C11); only Duplicate and undoing it are offered then
+Cyclic == \E q \in Live(h) : ~h[q].ref /\ h[q].ch # NULL /\ h[q].ch \in roots
+EnvMakeCycle ==
+  /\ F("cycle") /\ ~Cyclic
+  /\ \E a \in roots, q \in Live(h) :
+        /\ IsCont(h[q].k) /\ ~h[q].ref /\ h[q].ch = NULL /\ q \in Subtree(h, a) /\ IsCont(h[a].k)
+        /\ h' = [h EXCEPT ![q].ch = a] /\ roots' = roots /\ res' = [t |-> "void"]
+        /\ EmitT(<<"EnvMakeCycle", q, a>>, <<Out(h', roots', res')>>)
+EnvBreakCycle ==
+  /\ Cyclic
+  /\ \E q \in Live(h) : /\ ~h[q].ref /\ h[q].ch # NULL /\ h[q].ch \in roots
+                        /\ h' = [h EXCEPT ![q].ch = NULL] /\ roots' = roots /\ res' = [t |-> "void"]
+                        /\ EmitT(<<"EnvBreakCycle", q>>, <<Out(h', roots', res')>>)
+DupCyclic ==
+  /\ Cyclic
+  /\ \E item \in Live(h) : IsCont(h[item].k) /\ ~DupOom(h, item, TRUE, 0) /\ TakeF(<<"Duplicate", item, TRUE, 0>>, 0, Duplicate(h, roots, item, TRUE, 0), Duplicate(h, roots, item, TRUE, 0))
+
+Next == \/ ~Cyclic /\ (Create \/ Add \/ Detach \/ Del \/ Insert \/ Replace \/ SetHelpers \/ Bulk \/ Dup \/ Alias \/ Sort \/ EnvMakeCycle)
+        \/ EnvBreakCycle \/ DupCyclic
 
 Init == h = [i \in Node |-> FreeRec] /\ roots = {} /\ res = NULLRES
 
@@ -314,10 +367,10 @@ Spec == Init /\ [][Next]_vars
 (***************************************************************************)
 (* Invariants                                                               *)
 (***************************************************************************)
-InvWellFormed == WellFormed(h, roots)                          \* C06 sibling chain, C07 single ownership
+InvWellFormed == Cyclic \/ WellFormed(h, roots)                          \* C06 sibling chain, C07 single ownership
 InvNoLeak     == roots = {} => Live(h) = {}                     \* C07: deleting the remaining roots empties the ledger
 InvLeafNoKids == \A i \in Live(h) : h[i].ref \/ IsCont(h[i].k) \/ h[i].ch = NULL
-InvEmit       == EmitS                                          \* one S line per distinct state
+InvEmit       == Cyclic \/ EmitS                                          \* one S line per distinct state
 
 View == <<h, roots>>
 
@@ -327,6 +380,17 @@ View == <<h, roots>>
 (***************************************************************************)
 KeySeq2 == <<<<97>>, <<65>>>>
 KeySeq3 == <<<<97>>, <<65>>, <<98>>>>
+\* boundary keys for ASCII case folding: "{"=123 "Z"=90 as members; lookups also with "["=91 "z"=122 "@"=64 "`"=96
+KeySeq4 == <<<<123>>, <<90>>>>
+QKeySeq4 == <<<<123>>, <<90>>, <<91>>, <<122>>, <<64>>, <<96>>>>
+Keys4 == Range(KeySeq4)
+\* "a"=97 "B"=66 "b"=98: byte order B < a < b, folded order a < B = b (the two orders disagree)
+KeySeq5 == <<<<97>>, <<66>>, <<98>>>>
+Keys5 == Range(KeySeq5)
+QKeySeq5 == KeySeq5
+QKeySeq1 == <<<<97>>, <<65>>>>
+QKeySeq2 == <<<<97>>, <<65>>, <<98>>>>
+QKeySeq3 == KeySeq3
 StrSeq2 == <<<<>>, <<120>>>>
 StrSeq3 == <<<<>>, <<120>>, <<120, 121>>>>
 Keys2 == Range(KeySeq2)
@@ -339,6 +403,21 @@ FeatAll  == {"arr", "obj", "ptr", "ref", "cs", "fail", "bulk", "dup", "replace",
 \* dimension-split instances (DESIGN 6/C06): structure, keys, references/ownership, failure, duplication
 FeatS == {"arr", "ptr", "replace", "null"}
 FeatK == {"obj", "cs", "replace", "null"}
+FeatKB == {"obj"}
+FeatRS == {"arr", "ref"}
+FeatO == {"obj", "cs", "ref", "dup", "sethelpers", "replace", "alias"}
+KindsO == {"str", "obj"}
+FeatSort == {"obj", "sort", "arr"}
+FeatSortMin == {"objadd", "sort"}
+FeatDL == {"arr", "dup", "cycle", "fail"}
+FeatDF == {"arr", "dup", "fail"}
+FeatD4 == {"arr", "ptr", "ref", "dup", "sethelpers"}
+FeatOD == {"obj", "cs", "dup"}
+KindsSA == {"str", "arr"}
+Strs1 == {<<120>>}
+StrSeq1 == <<<<120>>>>
+KindsA == {"arr"}
+FeatRK == {"obj", "ref"}
 FeatR == {"arr", "obj", "ref", "cs", "dup", "sethelpers", "replace"}
 FeatF == {"arr", "obj", "ref", "fail", "bulk", "dup", "addnew", "sethelpers", "replace"}
 FeatD == {"arr", "obj", "ptr", "ref", "cs", "dup", "sethelpers"}
